@@ -406,7 +406,7 @@ def emit_case(h, results, ident):
             n = i
             break
         blocks = o["tape_len"] // 512
-        newm = [m for m in o.get("members", []) if m["start"] >= prev_blocks]
+        newm = [m for m in (o.get("members") or []) if m["start"] >= prev_blocks]
         hb = [str(m["hb"]) for m in newm]
         enc = [str(m["size"]) for m in newm if m["size"] > 0]
         now = -(i + 1)
@@ -436,7 +436,7 @@ def emit_hist(h, results, upto, ident):
         o = results[i].get("obs") or {}
         if "tape_len" not in o or o["tape_len"] % 512 != 0:
             return None
-        newm = [m for m in o.get("members", []) if m["start"] >= prev_blocks]
+        newm = [m for m in (o.get("members") or []) if m["start"] >= prev_blocks]
         now = -(i + 1)
         hist.append("(%s, {| ev_hb := %s; ev_enc := %s; ev_now := %s |})" % (
             cq_call(h, h["calls"][i], now), cq_list([str(m["hb"]) for m in newm]), cq_list([str(m["size"]) for m in newm if m["size"] > 0]), cq_Z(now)))
